@@ -1335,9 +1335,9 @@ class CParser:
                 dim = self._parse_assignment_expression()
                 self._expect("RBRACKET")
                 return make_array_decl(dim, dim_quals)
-            times_tok = self._accept("TIMES")
-            if times_tok:
-                self._expect("RBRACKET")
+            if self._peek_type() == "TIMES" and self._peek_type(2) == "RBRACKET":
+                times_tok = self._advance()
+                self._advance()
                 dim = c_ast.ID(times_tok.value, self._tok_coord(times_tok))
                 return make_array_decl(dim, dim_quals)
             dim = None
@@ -1346,9 +1346,9 @@ class CParser:
             self._expect("RBRACKET")
             return make_array_decl(dim, dim_quals)
 
-        times_tok = self._accept("TIMES")
-        if times_tok:
-            self._expect("RBRACKET")
+        if self._peek_type() == "TIMES" and self._peek_type(2) == "RBRACKET":
+            times_tok = self._advance()
+            self._advance()
             dim = c_ast.ID(times_tok.value, self._tok_coord(times_tok))
             return make_array_decl(dim, [])
 
